@@ -13,7 +13,7 @@ use proptest::prelude::*;
 use serde::{Deserialize, Serialize};
 
 const PAGE: usize = 4096;
-const DATA_PAGES: usize = 3;
+const DATA_PAGES: usize = 6;
 
 /// guard page | DATA_PAGES data pages | guard page
 pub struct Arena {
@@ -53,6 +53,9 @@ pub enum Placement {
     StartAfterGuard,
     /// start address = 64-byte boundary + k, canaries on both sides
     Interior(u8),
+    /// a page boundary inside mapped memory falls k+1 bytes after the slice start (code that treats
+    /// page-crossing loads specially)
+    AcrossPage(u8),
 }
 
 /// Where the buffers of one call live.
@@ -116,6 +119,7 @@ impl Mem for ArenaMem {
             Placement::EndAtGuard => total - len,
             Placement::StartAfterGuard => 0,
             Placement::Interior(k) => PAGE + 64 + (k as usize % 64),
+            Placement::AcrossPage(k) => 2 * PAGE - (1 + k as usize).min(len.saturating_sub(1)),
         };
         self.used[id] = Some((start, start + len));
         let d = self.arenas[id].data();
@@ -235,6 +239,8 @@ mod vecio {
 /// Execute the API with its byte buffers taken from `mem`; returns everything observable.
 pub fn exec(c: &AlignCase, mem: &mut dyn Mem) -> Vec<u8> {
     let data = gen::expand(c.seed, c.len.max(256), 0);
+    // hashing: the bytes absorbed before the placed slice leave the buffer at every fill level
+    let pending = (c.seed % 150) as usize;
     let key = gen::expand(c.seed ^ 0x11, 128, 0);
     match &c.api {
         Api::CipherApply(v) => {
@@ -264,7 +270,7 @@ pub fn exec(c: &AlignCase, mem: &mut dyn Mem) -> Vec<u8> {
             let specs = hashes::c08_hashes();
             let spec = specs.iter().find(|s| &s.name == name).expect("HARNESS: hash");
             let mut h = (spec.make)();
-            h.update(&data[..(c.seed % 50) as usize]);
+            h.update(&data[..pending.min(data.len())]);
             let s = mem.slot(0, c.len);
             s.copy_from_slice(&data[..c.len]);
             h.update(s);
@@ -402,6 +408,7 @@ pub fn align_check(c: &AlignCase, info: &mut CaseInfo) -> Result<(), Fail> {
             info.label(format!("alignment {}", k % 64));
             info.label_if(k % 16 != 0, "not 16-byte aligned");
         }
+        Placement::AcrossPage(_) => info.label("slice straddles a page boundary"),
     }
     info.label(match &c.api {
         Api::VecIo(..) | Api::VecIoLen(..) => "api VecIo".to_string(),
@@ -412,6 +419,7 @@ pub fn align_check(c: &AlignCase, info: &mut CaseInfo) -> Result<(), Fail> {
         other => format!("api {:?}", other),
     });
     info.nontrivial = c.len >= 1 && !matches!(c.placement, Placement::Interior(k) if k % 16 == 0);
+    info.label_if(c.len >= 4096, "length >= 4096");
     match got {
         Err(p) => Err(fail("PANIC", format!("{:?} len {}: {}", c.placement, c.len, p))),
         Ok(g) => {
@@ -454,7 +462,7 @@ pub fn all_apis() -> Vec<Api> {
     v
 }
 
-const LENS: [usize; 16] = [1, 2, 15, 16, 17, 31, 63, 64, 65, 127, 128, 129, 255, 256, 257, 1000];
+const LENS: [usize; 20] = [1, 2, 15, 16, 17, 31, 63, 64, 65, 127, 128, 129, 255, 256, 257, 1000, 4096, 4109, 8192, 12_301];
 
 pub fn run_c16(ctx: &mut Ctx) {
     let apis = all_apis();
@@ -469,8 +477,8 @@ pub fn run_c16(ctx: &mut Ctx) {
             vec![64]
         };
         let mut li = 0usize;
-        for p in (0..64u8).map(Placement::Interior).chain([Placement::EndAtGuard, Placement::StartAfterGuard]) {
-            let n = if api.variable_length() { if matches!(p, Placement::Interior(_)) { 3 } else { lens.len() } } else { 1 };
+        for p in (0..64u8).map(Placement::Interior).chain((0..64u8).map(Placement::AcrossPage)).chain([Placement::EndAtGuard, Placement::StartAfterGuard]) {
+            let n = if api.variable_length() { if matches!(p, Placement::Interior(_) | Placement::AcrossPage(_)) { 3 } else { lens.len() } } else { 1 };
             for _ in 0..n {
                 let len = lens[li % lens.len()];
                 li += 1;
@@ -494,8 +502,9 @@ pub fn run_c16(ctx: &mut Ctx) {
     ctx.run_list("placement-sweep", cases, align_check);
     // generated: random (api, placement, length, content)
     let apis2 = apis.clone();
-    let strat = (0..apis.len(), prop_oneof![4 => (0u8..64).prop_map(Placement::Interior), 3 => Just(Placement::EndAtGuard), 2 => Just(Placement::StartAfterGuard)],
-        prop_oneof![3 => 1usize..1200, 2 => (0usize..LENS.len()).prop_map(|i| LENS[i]), 1 => 1usize..4000], any::<u64>())
+    let strat = (0..apis.len(), prop_oneof![4 => (0u8..64).prop_map(Placement::Interior), 3 => Just(Placement::EndAtGuard), 2 => Just(Placement::StartAfterGuard),
+            2 => (0u8..64).prop_map(Placement::AcrossPage)],
+        prop_oneof![6 => 1usize..1200, 4 => (0usize..LENS.len()).prop_map(|i| LENS[i]), 2 => 1usize..4000, 1 => 4000usize..16_000], any::<u64>())
         .prop_map(move |(a, placement, len, seed)| {
             let api = apis2[a].clone();
             let len = if api.variable_length() { len } else { 64 };
@@ -506,4 +515,5 @@ pub fn run_c16(ctx: &mut Ctx) {
     ctx.required_classes.push("slice ends at an unmapped page".into());
     ctx.required_classes.push("slice starts after an unmapped page".into());
     ctx.required_classes.push("not 16-byte aligned".into());
+    ctx.required_classes.push("slice straddles a page boundary".into());
 }
